@@ -326,6 +326,27 @@ class World:
                 ent.cancel_time = m.time
             self._emit(sub, n0)
             follow = True
+        elif k == "DF":
+            # a fill applied to ONE resting order through the order book's public interface (change_order_volume): the i-th
+            # live order by age loses its whole volume ("all") or one unit ("one") -- whichever place it has in the queue
+            lv = self.live()
+            if op[1] >= len(lv):
+                return False
+            o = lv[op[1]]
+            if op[2] == "one" and o.volume < 2:
+                return False
+            vol = o.volume if op[2] == "all" else 1
+            sub = Sub("direct", op)
+            sub.order = o
+            self._snap(sub)
+            n0 = len(self.lg.got)
+            try:
+                (m.buy_order_book if o.is_buy else m.sell_order_book).change_order_volume(o, -vol)
+            except Exception as e:  # noqa
+                sub.exc = e
+            if sub.exc is None:
+                self.by_id[id(o)].fills += vol
+            self._emit(sub, n0)
         elif k in ("T", "J"):
             # T: one clock step (what the runner does); J: the clock set k steps ahead in one call (Market._set_time)
             sub = Sub("tick", op)
